@@ -12,6 +12,8 @@ pub enum NameStyle {
     /// arbitrary valid UTF-8 without '/' and NUL: blanks, quotes, newlines,
     /// leading dashes, glob characters, `{}`, multi-byte
     Hostile,
+    /// simple names padded to 50..240 bytes, so that paths get long
+    Long,
 }
 
 pub struct TreeCfg {
@@ -43,6 +45,17 @@ pub fn gen_name(rng: &mut Rng, style: NameStyle, taken: &BTreeSet<String>) -> St
                 }
                 if rng.chance(1, 6) {
                     s.push_str(*rng.pick(&[".txt", ".rs", "~", ".d"]));
+                }
+                s
+            }
+            NameStyle::Long => {
+                let mut s = String::new();
+                s.push(*rng.pick(&['a', 'b', 'c', 'd', 'e', 'f', 'g', 'h']));
+                s.push(*rng.pick(&['0', '1', '2', '3', '4', '5', '6', '7', '8', '9']));
+                s.push('_');
+                let n = rng.urange(50, 240);
+                for _ in 0..n {
+                    s.push('x');
                 }
                 s
             }
